@@ -21,6 +21,8 @@ type localBinding struct {
 	GoType string `json:"gotype"` // type as written in the package (for the generated clause function)
 	Type   string `json:"type"`   // fully qualified type (for matching)
 	Ord    int    `json:"ord"`    // ordinal among the named locals of that type, in source order
+	// packages the written type refers to (import path -> package name)
+	Imports map[string]string `json:"imports,omitempty"`
 }
 
 type fnBinding struct {
@@ -46,6 +48,14 @@ func applyRecordedNames(c *Contract) {
 		return
 	}
 	if len(fb.Params) == len(c.ParamNames) {
+		for i, n := range fb.Params {
+			if n != c.ParamNames[i] {
+				if c.NameAlias == nil {
+					c.NameAlias = map[string]string{}
+				}
+				c.NameAlias[n] = c.ParamNames[i]
+			}
+		}
 		copy(c.ParamNames, fb.Params)
 	}
 	if len(fb.Results) == len(c.ResultNames) {
@@ -155,7 +165,18 @@ func cmdBind(args []string) {
 						if fn.Parent() != nil && fn.Parent().Pkg != nil {
 							pkg = fn.Parent().Pkg.Pkg
 						}
-						fb.Locals[n] = localBinding{GoType: types.TypeString(target.Type().(*types.Pointer).Elem(), types.RelativeTo(pkg)), Type: allocTypeKey(target), Ord: ord}
+						imps := map[string]string{}
+						gt := types.TypeString(target.Type().(*types.Pointer).Elem(), func(p *types.Package) string {
+							if p == pkg {
+								return ""
+							}
+							imps[p.Path()] = p.Name()
+							return p.Name()
+						})
+						if len(imps) == 0 {
+							imps = nil
+						}
+						fb.Locals[n] = localBinding{GoType: gt, Type: allocTypeKey(target), Ord: ord, Imports: imps}
 					}
 				}
 			}
